@@ -99,13 +99,14 @@ def fromV3ParamTable : List (String × String) :=
    ("minItems", "minItems"), ("maxItems", "maxItems"), ("allowEmptyValue", "allowEmptyValue"), ("uniqueItems", "uniqueItems"),
    ("multipleOf", "multipleOf")]
 
-/-- pinned: FromV3RequestBodyFormData `&openapi2.Parameter{…}` — no `format` row -/
+/-- pinned: FromV3RequestBodyFormData `&openapi2.Parameter{…}` (format: the local that is "" for binary, ddd71cc) -/
 def fromV3FormTable : List (String × String) :=
   [("name", "<local>"), ("description", "description"), ("type", "<local>"), ("in", "<const>"),
    ("enum", "enum"), ("exclusiveMinimum", "exclusiveMinimum"), ("exclusiveMaximum", "exclusiveMaximum"), ("minLength", "minLength"),
    ("maxLength", "maxLength"), ("default", "default"), ("items", "<local>"), ("minItems", "minItems"),
    ("maxItems", "maxItems"), ("maximum", "maximum"), ("minimum", "minimum"), ("pattern", "pattern"),
-   ("allowEmptyValue", "allowEmptyValue"), ("required", "<local>"), ("uniqueItems", "uniqueItems"), ("multipleOf", "multipleOf")]
+   ("format", "<local>"), ("allowEmptyValue", "allowEmptyValue"), ("required", "<local>"), ("uniqueItems", "uniqueItems"),
+   ("multipleOf", "multipleOf")]
 
 /-- pinned: FromV3SchemaRef, binary branch, `&openapi2.Parameter{…}` (shared file parameter) — no `pattern` row -/
 def fromV3FileTable : List (String × String) :=
@@ -219,33 +220,41 @@ def fromV3Hd {V : Type} (h : Hd V) : Hd V :=
   { ty := h.ty, fmt := h.fmt, nullable := false, xnull := h.nullable || h.xnull, disc := h.disc,
     req := h.req, sc := conv fromV3SchemaTable h.sc }
 
+/-- pinned: where nullability comes from — ToV3SchemaRef assigns `Nullable` the boolean VALUE of the extension
+    `x-nullable` (an explicit `false` and non-boolean values are not nullability: `Hd.xnull` is "x-nullable is the
+    boolean true"); FromV3SchemaRef writes `x-nullable: true` when the schema permits null -/
+def nullableTable : List (String × String) :=
+  [("nullable", "ext[x-nullable].(bool)"), ("x-nullable", "=true if PermitsNull")]
+
 /-- pinned: the typed fields ToV3SchemaRef / FromV3SchemaRef set by statements after the composite literal
     (JSON keys of the destination fields, in source order) -/
 def toV3SchemaAssigned : List String := ["discriminator", "items", "format", "type", "properties", "allOf", "nullable"]
 def fromV3SchemaAssigned : List String := ["discriminator", "items", "properties", "allOf"]
 
 mutual
-/-- convertRefsInV2SchemaRef (dfc5235): the additionalProperties schema of a v3 schema on the way back — its own
-    `$ref` is rewritten to the v2 form and the conversion stops there (the resolved value of a reference is
-    not entered); otherwise the chain of nested additionalProperties is followed. Nothing else is touched
-    (`nullable` stays, items / properties / allOf are copied as they are). -/
+/-- convertRefsInV2SchemaRef (dfc5235, 00eb646): the additionalProperties schema of a v3 schema on the way back —
+    its own `$ref` is rewritten to the v2 form and the conversion stops there (the resolved value of a
+    reference is not entered); otherwise every sub-schema (additionalProperties, items, properties, allOf) is
+    treated the same way. The scalar part is not touched (`nullable` stays). -/
 def addlFromV3 {V : Type} : Sch V → Sch V
   | .ref k n => .ref (fromV3RK k) n
   | .node h kids => .node h (addlBackKids kids)
 def addlBackKids {V : Type} : List (Slot × Sch V) → List (Slot × Sch V)
   | [] => []
-  | (sl, c) :: rest => (sl, if sl = Slot.addl then addlFromV3 c else c) :: addlBackKids rest
+  | (sl, c) :: rest => (sl, addlFromV3 c) :: addlBackKids rest
 end
 
 mutual
 /-- convertRefsInV3SchemaRef: the additionalProperties schema of a v2 schema is parsed as an
-    `openapi3.SchemaRef`; only its own `$ref` and the chain of nested additionalProperties are rewritten -/
+    `openapi3.SchemaRef`; its own `$ref` is rewritten, and so are — since 00eb646, convertSubschemas — the
+    references below its additionalProperties, items, properties and allOf. The scalar part is NOT converted
+    (`x-nullable`, `type: file` stay as they are: what is left of F-C17-8). -/
 def addlToV3 {V : Type} : Sch V → Sch V
   | .ref k n => .ref (toV3RK k) n
   | .node h kids => .node h (addlKids kids)
 def addlKids {V : Type} : List (Slot × Sch V) → List (Slot × Sch V)
   | [] => []
-  | (sl, c) :: rest => (sl, if sl = Slot.addl then addlToV3 c else c) :: addlKids rest
+  | (sl, c) :: rest => (sl, addlToV3 c) :: addlKids rest
 end
 
 mutual
@@ -365,25 +374,18 @@ def abs3Kids {V : Type} : List (Slot × Sch V) → List (Slot × ASch V)
 end
 
 mutual
-/-- an additionalProperties sub-schema that `convertRefsInV3SchemaRef` converts completely: references
-    only along the additionalProperties chain, no `x-nullable`, no `file` -/
+/-- an additionalProperties sub-schema that `convertRefsInV3SchemaRef` converts completely: no `x-nullable`, no
+    `type: file` anywhere below it (references are rewritten everywhere since 00eb646) -/
 def addlPure {V : Type} : Sch V → Bool
   | .ref _ _ => true
   | .node h kids => !h.xnull && !(h.ty == some "file") && addlPureKids kids
 def addlPureKids {V : Type} : List (Slot × Sch V) → Bool
   | [] => true
-  | (sl, c) :: rest => (if sl = Slot.addl then addlPure c else refFree c) && addlPureKids rest
-/-- no reference, no `x-nullable`, no `file` anywhere -/
-def refFree {V : Type} : Sch V → Bool
-  | .ref _ _ => false
-  | .node h kids => !h.xnull && !(h.ty == some "file") && refFreeKids kids
-def refFreeKids {V : Type} : List (Slot × Sch V) → Bool
-  | [] => true
-  | (_, c) :: rest => refFree c && refFreeKids rest
+  | (_, c) :: rest => addlPure c && addlPureKids rest
 end
 
 mutual
-/-- exclusion (new finding, ToV3): some additionalProperties sub-schema is not converted completely -/
+/-- exclusion (F-C17-8, what is left of it): some additionalProperties sub-schema carries `x-nullable` or `type: file` -/
 def addlImpure {V : Type} : Sch V → Bool
   | .ref _ _ => false
   | .node _ kids => addlImpureKids kids
@@ -442,6 +444,7 @@ structure Body3 (V : Type) where
   required : Bool
   mimes : List String
   schema : Option (Sch V)
+  origName : Bool := false      -- carries the extension `x-originalParamName` (a body parameter with a name)
 
 inductive BRef3 (V : Type) where
   | ref (k : RK) (name : String)
@@ -488,14 +491,16 @@ def propRequired {V : Type} (name : String) : Sch V → Bool
   | .ref _ _ => false
   | .node h _ => h.req.contains name
 
-/-- FromV3RequestBodyFormData, one inline property: `required` is read from the property's own
-    `required` list, which formDataBody has cleared; `format` is not copied; binary ↦ file -/
-def fromV3FormProp {V : Type} (name : String) (s : Sch V) : PRef2 V :=
+/-- FromV3RequestBodyFormData, one inline property: `required` is read from the property's own `required` list
+    (which formDataBody has cleared) and from the object schema's (`objReq`, 9a423cc); `format` is copied unless it
+    is `binary`, which is `type: file` (ddd71cc) -/
+def fromV3FormProp {V : Type} (objReq : List String) (name : String) (s : Sch V) : PRef2 V :=
   match s with
   | .ref k n => .ref (if k = RK.def3 then RK.par2 else k) n
   | .node h kids =>
-    .val { name := name, loc := "formData", required := h.req.contains name,
-           cons := { ty := if h.fmt = some "binary" then some "file" else h.ty, fmt := none,
+    .val { name := name, loc := "formData", required := h.req.contains name || objReq.contains name,
+           cons := { ty := if h.fmt = some "binary" then some "file" else h.ty,
+                     fmt := if h.fmt = some "binary" then none else h.fmt,
                      sc := conv fromV3FormTable h.sc },
            items := (kidItems kids).map fromV3S, schema := none }
 
@@ -570,12 +575,13 @@ def toV3Resp {V : Type} (produces : List String) : RRef2 V → RRef3 V
                      mimes := match r.schema with | none => [] | some _ => effProduces produces,
                      schema := r.schema.map toV3S }
 
-/-- FromV3Response: the schema is read from `content["application/json"]` only -/
+/-- FromV3Response: the schema is read from `content["application/json"]`, else from the first media type in
+    sorted order (bf34df1); every media type of a converted response carries the same schema -/
 def fromV3Resp {V : Type} : RRef3 V → RRef2 V
   | .ref k n => .ref (fromV3RK k) n
   | .val r => .val { desc := r.desc,
                      headers := r.headers.map (fun (n, h) => (n, { fromV3Param h with name := "", loc := "" })),
-                     schema := if r.mimes.contains "application/json" then r.schema.map fromV3S else none }
+                     schema := if r.mimes.isEmpty then none else r.schema.map fromV3S }
 
 /-- FromV3Parameter as executed: `none` = nil dereference (`schemaRefV2.Ref` on the nil schema FromV3SchemaRef
     returns for a string/binary schema) -/
@@ -601,7 +607,7 @@ def fromV3RespO {V : Type} (bin : List String) : RRef3 V → Option (RRef2 V)
         (fromV3ParamO bin nh.2).map (fun h => (nh.1, { h with name := "", loc := "" }))) with
     | none => none
     | some hs => some (.val { desc := r.desc, headers := hs,
-                              schema := if r.mimes.contains "application/json" then r.schema.bind (fromV3SO bin) else none })
+                              schema := if r.mimes.isEmpty then none else r.schema.bind (fromV3SO bin) })
 
 structure RespA (V : Type) where
   desc : String
@@ -735,12 +741,15 @@ def toV3Servers (l : Loc2) : List Server :=
     (if l.schemes.isEmpty then ["https"] else l.schemes).map
       (fun sch => { scheme := sch, host := l.host, base := if l.basePath = "" then "/" else l.basePath })
 
-/-- FromV3: host and base path of the first server; schemes https / http when some server uses them -/
+/-- the order in which FromV3 appends the schemes it found -/
+def schemeOrder : List String := ["https", "http", "wss", "ws"]
+
+/-- FromV3: host and base path of the first server; schemes https / http / wss / ws (in this order) when some
+    server uses them (a84c8a2) -/
 def fromV3Servers (ss : List Server) : Loc2 :=
   { host := match ss with | [] => "" | s :: _ => s.host,
     basePath := match ss with | [] => "" | s :: _ => s.base,
-    schemes := (if ss.any (·.scheme == "https") then ["https"] else []) ++
-               (if ss.any (·.scheme == "http") then ["http"] else []) }
+    schemes := schemeOrder.filter (fun c => ss.any (·.scheme == c)) }
 
 /-- what a v2 document says about where it is served (conversion convention: no scheme = https,
     no base path = "/"); nothing is said when host, base path and schemes are all absent -/
@@ -844,7 +853,7 @@ def toV3P {V : Type} (env : Env3 V) (consumes : List String) : PRef2 V → P3 V
                     mimes := match p.schema with
                       | none => []
                       | some _ => if consumes.isEmpty then ["*/*"] else consumes,
-                    schema := p.schema.map toV3S })
+                    schema := p.schema.map toV3S, origName := p.name != "" })
     else if p.loc = "formData" then .form p.name (toV3FormProp p)
     else .param (.val (toV3Param p))
 
@@ -1038,12 +1047,13 @@ def fromV3PRef {V : Type} : PRef3 V → PRef2 V
   | .val p => .val (fromV3Param p)
 
 /-- FromV3RequestBodyFormData, one inline property, as executed (items through FromV3SchemaRef) -/
-def fromV3FormPropO {V : Type} (bin : List String) (name : String) (s : Sch V) : PRef2 V :=
+def fromV3FormPropO {V : Type} (bin : List String) (objReq : List String) (name : String) (s : Sch V) : PRef2 V :=
   match s with
   | .ref k n => .ref (if k = RK.def3 then RK.par2 else k) n
   | .node h kids =>
-    .val { name := name, loc := "formData", required := h.req.contains name,
-           cons := { ty := if h.fmt = some "binary" then some "file" else h.ty, fmt := none,
+    .val { name := name, loc := "formData", required := h.req.contains name || objReq.contains name,
+           cons := { ty := if h.fmt = some "binary" then some "file" else h.ty,
+                     fmt := if h.fmt = some "binary" then none else h.fmt,
                      sc := conv fromV3FormTable h.sc },
            items := (kidItems kids).bind (fromV3SO bin), schema := none }
 
@@ -1055,8 +1065,8 @@ def fromV3Body {V : Type} (bin : List String) (shared : Bool) (origName : String
   | .val b =>
     if b.mimes.any isFormMime then
       match b.schema with
-      | some (.node _ kids) => kids.filterMap (fun (sl, s) => match sl with
-          | .prop name => some (fromV3FormPropO bin name s) | _ => none)
+      | some (.node oh kids) => kids.filterMap (fun (sl, s) => match sl with
+          | .prop name => some (fromV3FormPropO bin oh.req name s) | _ => none)
       | _ => []
     else if b.mimes.isEmpty then []
     else [.val { name := origName, loc := "body", required := b.required, cons := {}, items := none,
@@ -1117,10 +1127,11 @@ def paramName3 {V : Type} (cparams : List (String × PRef3 V)) : PRef3 V → Str
   | .val p => p.name
   | .ref _ n => match alookup n cparams with | some (.val q) => q.name | _ => ""
 
-/-- FromV3Operation fails with "could not find a name for request body": the operation has a request body
-    and parameters named `body` and `requestBody` -/
+/-- FromV3Operation fails with "could not find a name for request body": the operation has an inline request
+    body that does not carry its original name (c26cd6a; what formDataBody builds never does) and parameters
+    named `body` and `requestBody` -/
 def opNameClash {V : Type} (cparams : List (String × PRef3 V)) (o : Op3 V) : Bool :=
-  o.body.isSome && bodyParamNames.all (fun n => o.params.any (fun p => paramName3 cparams p == n))
+  (match o.body with | some (.val b) => !b.origName | _ => false) && bodyParamNames.all (fun n => o.params.any (fun p => paramName3 cparams p == n))
 
 /-- outcome of FromV3 -/
 inductive BackRes (V : Type) where
@@ -1200,9 +1211,10 @@ def itemsOK3 {V : Type} (o : Option (Sch V)) : Bool := o.all (fun s => !addlImpu
 /-- … and of `roundtripS_partial` -/
 def itemsOKBack {V : Type} (o : Option (Sch V)) : Bool := o.all v2Refs
 
-/-- exclusion (findings #21c and F-C17-4): the way back loses `required` and `format` of an inline form field -/
-def formLossy {V : Type} (p : Param2 V) : Bool :=
-  p.required || (p.cons.fmt.isSome && p.cons.ty != some "file")
+/-- `format: binary` is a format of strings (a form field `type: integer, format: binary` is not a meaningful
+    OpenAPI 2 parameter: the converter reads every binary format as a file upload) -/
+def formFmtOK {V : Type} (p : Param2 V) : Bool :=
+  p.cons.fmt != some "binary" || p.cons.ty == some "string" || p.cons.ty == some "file"
 
 def headerOK3 {V : Type} (h : String × Param2 V) : Bool := itemsOK3 h.2.items
 
@@ -1212,15 +1224,13 @@ def schemaOK3 {V : Type} (o : Option (Sch V)) : Bool := o.all (fun s => !addlImp
 
 def schemaOKBack {V : Type} (o : Option (Sch V)) : Bool := o.all v2Refs
 
-/-- exclusion (finding #26): the response has a schema and `produces` lacks application/json -/
-def respLossy {V : Type} (produces : List String) : RRef2 V → Bool
-  | .ref _ _ => false
-  | .val x => x.schema.isSome && !(effProduces produces).contains "application/json"
-
 /-- the schemes of the fragment: basic, apiKey, and oauth2 with one of the four flows -/
 def secInFragment (s : Sec2) : Bool :=
   s.type == "basic" || s.type == "apiKey" ||
   (s.type == "oauth2" && (s.flow == "implicit" || s.flow == "accessCode" || s.flow == "password" || s.flow == "application"))
+
+/-- the four schemes of OpenAPI 2 -/
+def schemeOK (x : String) : Bool := x == "http" || x == "https" || x == "ws" || x == "wss"
 
 /-- hypotheses of the response theorems, as one decidable predicate -/
 def respOK3 {V : Type} : RRef2 V → Bool
@@ -1307,8 +1317,7 @@ def headerSimpleBack {V : Type} (h : String × Param2 V) : Bool :=
 
 def respSimpleBack {V : Type} (produces : List String) : RRef2 V → Bool
   | .ref k _ => k.isV2
-  | .val x => x.headers.all headerSimpleBack && schemaOKBack x.schema && x.schema.all noBinary2 &&
-              !(x.schema.isSome && !(effProduces produces).contains "application/json")
+  | .val x => x.headers.all headerSimpleBack && schemaOKBack x.schema && x.schema.all noBinary2
 
 def opSimpleBack {V : Type} (o : Op2 V) : Bool :=
   o.params.all paramSimpleBack && o.responses.all (fun kr => respSimpleBack o.produces kr.2)
@@ -1323,7 +1332,7 @@ def docSimpleBack {V : Type} (d : Doc2 V) : Bool :=
   docSimple d && (d.params.all (fun kp => sharedSimpleBack kp.2) && nodupKeys d.params) && d.paths.all pathSimpleBack && d.responses.all (fun kr => respSimpleBack d.produces kr.2) &&
   nodupKeys d.defs && d.defs.all (fun ks => defSimpleBack ks.2) &&
   d.secs.all (fun ks => secInFragment ks.2) &&
-  (d.loc.host != "" && d.loc.schemes.all (fun x => x == "http" || x == "https"))
+  (d.loc.host != "" && d.loc.schemes.all schemeOK)
 
 /-! ## §8 the fragment with body parameters (inline and shared) -/
 
@@ -1381,7 +1390,7 @@ def toV3BodyS {V : Type} (cs : List String) (p : Param2 V) : BRef3 V :=
          mimes := match p.schema with
            | none => []
            | some _ => if cs.isEmpty then ["*/*"] else cs,
-         schema := p.schema.map toV3S }
+         schema := p.schema.map toV3S, origName := p.name != "" }
 
 /-- two lists related position by position -/
 def rel2 {α β : Type} (R : α → β → Prop) : List α → List β → Prop
@@ -1427,7 +1436,7 @@ def docBodyBack {V : Type} (d : Doc2 V) : Bool :=
   d.paths.all (pathBodyBack (bodyKeys d.params) d.consumes) &&
   d.responses.all (fun kr => respSimpleBack d.produces kr.2) &&
   d.defs.all (fun ks => defSimpleBack ks.2) &&
-  (d.loc.host != "" && d.loc.schemes.all (fun x => x == "http" || x == "https"))
+  (d.loc.host != "" && d.loc.schemes.all schemeOK)
 
 /-- what relates a converted path item to its source -/
 def PathRel3 {V : Type} (p3 : Path3 V) (p : Path2 V) : Prop :=
@@ -1477,5 +1486,29 @@ def docInputs {V : Type} (d : Doc2 V) : Bool :=
 
 /-- no reference of the list is in OpenAPI 2 form (what `toV3` requires of `schemaRefs3`) -/
 def noV2 (l : List (RK × String)) : Prop := ∀ kn ∈ l, kn.1.isV2 = false
+
+/-! ## §10 the round-trip fragment with form parameters -/
+
+/-- an inline form parameter of the round-trip fragment (its items come back through FromV3SchemaRef, which
+    returns nothing for binary strings: F-C17-12) -/
+def formOKBack {V : Type} : PRef2 V → Bool
+  | .ref _ _ => false
+  | .val p => p.loc == "formData" && itemsOKBack p.items && p.items.all noBinary2 && formFmtOK p
+
+def inputOKFBack {V : Type} (cs : List String) (q : PRef2 V) : Bool := inputOKBack cs q || formOKBack q
+
+def opInputsBack {V : Type} (dc : List String) (o : Op2 V) : Bool :=
+  o.params.all (inputOKFBack (effConsumes dc o)) && o.responses.all (fun kr => respSimpleBack o.produces kr.2)
+
+def pathInputsBack {V : Type} (bks dc : List String) (p : Path2 V) : Bool :=
+  p.params.all (pathParamBack bks) && p.ops.all (opInputsBack dc)
+
+/-- the round-trip fragment with body and form parameters (outside every open finding class) -/
+def docInputsBack {V : Type} (d : Doc2 V) : Bool :=
+  docInputs d && d.params.all (fun kp => sharedOKBack d.consumes kp.2) && nodupKeys d.params &&
+  d.paths.all (pathInputsBack (bodyKeys d.params) d.consumes) &&
+  d.responses.all (fun kr => respSimpleBack d.produces kr.2) &&
+  d.defs.all (fun ks => defSimpleBack ks.2) &&
+  (d.loc.host != "" && d.loc.schemes.all schemeOK)
 
 end KinModel.Conv
